@@ -31,7 +31,19 @@ def path_conditions(node, stop=None):
     out = []
     child = node
     p = parent(node)
-    while p is not None and p is not stop and not isinstance(p, (ast.FunctionDef, ast.AsyncFunctionDef, ast.Lambda, ast.ClassDef, ast.Module)):
+
+    def early_exit_guards(blk, idx):
+        # `if T: continue / return / break / raise` (no else) before the statement in the same block: T is false afterwards
+        for s in blk[:idx]:
+            if isinstance(s, ast.If) and not s.orelse and s.body and isinstance(s.body[-1], (ast.Continue, ast.Return, ast.Break, ast.Raise)):
+                out.extend(literals(s.test, False))
+    while p is not None and p is not stop:
+        for fld in ('body', 'orelse', 'finalbody'):
+            blk = getattr(p, fld, None)
+            if isinstance(blk, list) and child in blk:
+                early_exit_guards(blk, blk.index(child))
+        if isinstance(p, (ast.FunctionDef, ast.AsyncFunctionDef, ast.Lambda, ast.ClassDef, ast.Module)):
+            break
         if isinstance(p, ast.If):
             if child in p.body:
                 out.extend(literals(p.test, True))
